@@ -149,7 +149,9 @@ META.update({
         text="Exploration: real client with KeepAlive 2-30 s against a scripted gateway that drops selected ping transmissions within the retry budget; API calls (Sleep, Disconnect, Publish, Subscribe, Register, reconnect) at times drawn relative to the keep-alive period (exact tick, +-1 ns, +-1 ms, mid-period); a client-state model replayed over the timeline checks: consecutive keep-alive PINGREQs at most KeepAlive apart while active, none (original or retransmitted) while asleep or disconnected, and every concurrent call returns nil.",
         note=_CL_NOTE + " Events at exactly the instant of a state change are not ordered by the property and are tolerated.", technique="timed stateful PBT on a virtual clock with a client-state reference model"),
 })
-CHECKS["C31"] = dict(parts=[part("client-auth-after-connect", "cl", "TestC31Client", 2000, 100_000)])
+CHECKS["C31"] = dict(parts=[part("client-auth-after-connect", "cl", "TestC31Client", 2000, 100_000),
+                            part("cli-refuses-plaintext", "cli", "TestC31CLI", 1, 1, qshards=12, tshards=12, random=False, needs_tools=True)])
+CHECKS["C30"] = dict(parts=[part("predefined-config", "cli", "TestC30", 60, 2000, qshards=12, tshards=16, needs_tools=True)])
 META.update({
     "C31": dict(
         text="Exploration: (b) the real client library with/without a configured user, will on/off, a gateway that ignores 0..RetryCount+1 CONNECTs, repeated Connect calls and further API traffic: no AUTH datagram ever without a user; with a user every CONNECT datagram (first and retried) is immediately followed by an AUTH carrying exactly the configured credentials. (a) the three command-line tools over the exhaustive flag/environment matrix are checked by the part cli-refuses-plaintext.",
